@@ -1,0 +1,255 @@
+//! Verification hooks (feature `verif` only).
+//!
+//! `ChoiceMap` is a drop-in replacement for `std::collections::HashMap` whose
+//! *iteration order* is decided by a thread-local choice tape instead of by the
+//! process-wide random hash seed. Look-ups, insertions and removals go straight to
+//! the underlying map. Every iteration over a map with two or more entries is
+//! recorded as a choice point, so that a model checker can enumerate every order
+//! a real `HashMap` could have produced.
+
+use std::cell::RefCell;
+use std::collections::HashMap;
+use std::fmt::Debug;
+use std::hash::Hash;
+use std::ops::{Deref, DerefMut};
+
+/// A recorded choice point: the iteration site and the number of entries.
+#[derive(Clone, Debug, PartialEq, Eq)]
+pub struct ChoicePoint {
+    pub site: String,
+    pub entries: usize,
+    pub chosen: usize,
+}
+
+#[derive(Default)]
+struct Tape {
+    /// The permutation index to use at the i-th choice point (0 = canonical order).
+    script: Vec<usize>,
+    /// The choice points met so far.
+    log: Vec<ChoicePoint>,
+}
+
+thread_local! {
+    static TAPE: RefCell<Tape> = RefCell::new(Tape::default());
+}
+
+/// Installs a new tape for the current thread and clears the log.
+pub fn set_tape(script: Vec<usize>) {
+    TAPE.with(|t| {
+        let mut t = t.borrow_mut();
+        t.script = script;
+        t.log.clear();
+    });
+}
+
+/// Returns the log of the choice points met since the last `set_tape`.
+pub fn take_log() -> Vec<ChoicePoint> {
+    TAPE.with(|t| std::mem::take(&mut t.borrow_mut().log))
+}
+
+/// Number of orders explored for `n` entries: all permutations up to 4 entries,
+/// otherwise identity, reversal and the adjacent transpositions.
+pub fn orders(n: usize) -> usize {
+    match n {
+        0 | 1 => 1,
+        2 => 2,
+        3 => 6,
+        4 => 24,
+        _ => n + 1,
+    }
+}
+
+/// Applies the `k`-th order to a vector in canonical order.
+fn permute<T>(mut v: Vec<T>, k: usize) -> Vec<T> {
+    let n = v.len();
+    if k == 0 || n < 2 {
+        return v;
+    }
+    if n <= 4 {
+        // Decode k in the factorial number system (Lehmer code).
+        let mut k = k;
+        let mut out = Vec::with_capacity(n);
+        for i in (0..n).rev() {
+            let fact = (1..=i).product::<usize>();
+            let idx = k / fact;
+            k %= fact;
+            out.push(v.remove(idx));
+        }
+        out
+    } else if k == 1 {
+        v.reverse();
+        v
+    } else {
+        let i = (k - 2).min(n - 2);
+        v.swap(i, i + 1);
+        v
+    }
+}
+
+fn choose<T>(site: &str, v: Vec<(String, T)>) -> Vec<T> {
+    let mut v = v;
+    v.sort_by(|a, b| a.0.cmp(&b.0));
+    let n = v.len();
+    let k = if n < 2 {
+        0
+    } else {
+        TAPE.with(|t| {
+            let mut t = t.borrow_mut();
+            let i = t.log.len();
+            let k = t.script.get(i).copied().unwrap_or(0) % orders(n);
+            t.log.push(ChoicePoint {
+                site: site.to_owned(),
+                entries: n,
+                chosen: k,
+            });
+            k
+        })
+    };
+    permute(v.into_iter().map(|(_, x)| x).collect(), k)
+}
+
+#[derive(Clone, PartialEq, Eq)]
+pub struct ChoiceMap<K: Eq + Hash, V>(HashMap<K, V>);
+
+impl<K: Eq + Hash, V> Default for ChoiceMap<K, V> {
+    fn default() -> Self {
+        ChoiceMap(HashMap::new())
+    }
+}
+
+impl<K: Eq + Hash + Debug, V: Debug> Debug for ChoiceMap<K, V> {
+    fn fmt(&self, f: &mut std::fmt::Formatter<'_>) -> std::fmt::Result {
+        // Deterministic rendering: canonical order, no choice point.
+        let mut v: Vec<_> = self.0.iter().map(|(k, v)| (format!("{k:?}"), v)).collect();
+        v.sort_by(|a, b| a.0.cmp(&b.0));
+        f.debug_map().entries(v.iter().map(|(k, v)| (k, v))).finish()
+    }
+}
+
+impl<K: Eq + Hash, V> Deref for ChoiceMap<K, V> {
+    type Target = HashMap<K, V>;
+    fn deref(&self) -> &Self::Target {
+        &self.0
+    }
+}
+
+impl<K: Eq + Hash, V> DerefMut for ChoiceMap<K, V> {
+    fn deref_mut(&mut self) -> &mut Self::Target {
+        &mut self.0
+    }
+}
+
+impl<K: Eq + Hash, V> ChoiceMap<K, V> {
+    pub fn new() -> Self {
+        Self::default()
+    }
+}
+
+impl<K: Eq + Hash + Debug, V> ChoiceMap<K, V> {
+    fn site() -> String {
+        format!(
+            "{} -> {}",
+            std::any::type_name::<K>(),
+            std::any::type_name::<V>()
+        )
+    }
+
+    pub fn iter(&self) -> std::vec::IntoIter<(&K, &V)> {
+        let v = self.0.iter().map(|(k, v)| (format!("{k:?}"), (k, v))).collect();
+        choose(&Self::site(), v).into_iter()
+    }
+
+    pub fn iter_mut(&mut self) -> std::vec::IntoIter<(&K, &mut V)> {
+        let v = self
+            .0
+            .iter_mut()
+            .map(|(k, v)| (format!("{k:?}"), (k, v)))
+            .collect();
+        choose(&Self::site(), v).into_iter()
+    }
+
+    pub fn keys(&self) -> std::vec::IntoIter<&K> {
+        let v = self.0.keys().map(|k| (format!("{k:?}"), k)).collect();
+        choose(&Self::site(), v).into_iter()
+    }
+
+    pub fn values(&self) -> std::vec::IntoIter<&V> {
+        let v = self.0.iter().map(|(k, v)| (format!("{k:?}"), v)).collect();
+        choose(&Self::site(), v).into_iter()
+    }
+
+    pub fn values_mut(&mut self) -> std::vec::IntoIter<&mut V> {
+        let v = self
+            .0
+            .iter_mut()
+            .map(|(k, v)| (format!("{k:?}"), v))
+            .collect();
+        choose(&Self::site(), v).into_iter()
+    }
+
+    pub fn drain(&mut self) -> std::vec::IntoIter<(K, V)> {
+        let v = self.0.drain().map(|(k, v)| (format!("{k:?}"), (k, v))).collect();
+        choose(&Self::site(), v).into_iter()
+    }
+
+    pub fn into_keys(self) -> std::vec::IntoIter<K> {
+        let v = self.0.into_keys().map(|k| (format!("{k:?}"), k)).collect();
+        choose(&Self::site(), v).into_iter()
+    }
+
+    pub fn into_values(self) -> std::vec::IntoIter<V> {
+        let v = self
+            .0
+            .into_iter()
+            .map(|(k, v)| (format!("{k:?}"), v))
+            .collect();
+        choose(&Self::site(), v).into_iter()
+    }
+}
+
+impl<K: Eq + Hash + Debug, V> IntoIterator for ChoiceMap<K, V> {
+    type Item = (K, V);
+    type IntoIter = std::vec::IntoIter<(K, V)>;
+    fn into_iter(self) -> Self::IntoIter {
+        let v = self
+            .0
+            .into_iter()
+            .map(|(k, v)| (format!("{k:?}"), (k, v)))
+            .collect();
+        choose(&Self::site(), v).into_iter()
+    }
+}
+
+impl<'a, K: Eq + Hash + Debug, V> IntoIterator for &'a ChoiceMap<K, V> {
+    type Item = (&'a K, &'a V);
+    type IntoIter = std::vec::IntoIter<(&'a K, &'a V)>;
+    fn into_iter(self) -> Self::IntoIter {
+        self.iter()
+    }
+}
+
+impl<'a, K: Eq + Hash + Debug, V> IntoIterator for &'a mut ChoiceMap<K, V> {
+    type Item = (&'a K, &'a mut V);
+    type IntoIter = std::vec::IntoIter<(&'a K, &'a mut V)>;
+    fn into_iter(self) -> Self::IntoIter {
+        self.iter_mut()
+    }
+}
+
+impl<K: Eq + Hash, V> FromIterator<(K, V)> for ChoiceMap<K, V> {
+    fn from_iter<T: IntoIterator<Item = (K, V)>>(iter: T) -> Self {
+        ChoiceMap(HashMap::from_iter(iter))
+    }
+}
+
+impl<K: Eq + Hash, V, const N: usize> From<[(K, V); N]> for ChoiceMap<K, V> {
+    fn from(arr: [(K, V); N]) -> Self {
+        ChoiceMap(HashMap::from(arr))
+    }
+}
+
+impl<K: Eq + Hash, V> Extend<(K, V)> for ChoiceMap<K, V> {
+    fn extend<T: IntoIterator<Item = (K, V)>>(&mut self, iter: T) {
+        self.0.extend(iter)
+    }
+}
